@@ -34,7 +34,12 @@ type c09Case struct {
 	uncovered []string
 }
 
-func c09Name(i int) string { return fmt.Sprintf("Zq%c", 'a'+i) }
+func c09Name(i int) string {
+	if i >= 26 {
+		return fmt.Sprintf("Zq%c%c", 'a'+i/26-1, 'a'+i%26)
+	}
+	return fmt.Sprintf("Zq%c", 'a'+i)
+}
 
 const c09Hosts = 7
 
@@ -169,6 +174,59 @@ func c09Render(cs *c09Case, suffix string) string {
 		fmt.Fprintf(&sb, "let %s (u:%s) =\n  match u with\n%s", fn, un, arms("  ", true))
 	}
 	return sb.String()
+}
+
+// c09LargeDriver: unions with many cases (sizes around 8, 16, 32, 64 and a prime in between) - payload
+// on no / every second / every case, arms in declaration or reverse order, nothing omitted or exactly
+// one case omitted at every position (thorough: also every pair among the first, middle and last three),
+// with and without default.  All small unions are enumerated completely; a bookkeeping structure that
+// changes behaviour with the size (a bitmask, a fixed array, a map after a linear list) shows only here.
+func c09LargeDriver(sizes []int, pairs bool) func(c *explore.Chooser) *c09Case {
+	return func(c *explore.Chooser) *c09Case {
+		cs := &c09Case{host: 0}
+		cs.n = sizes[c.Choose(len(sizes))]
+		cs.payload = make([]bool, cs.n)
+		pm := c.Choose(3)
+		for i := range cs.payload {
+			cs.payload[i] = pm == 2 || (pm == 1 && i%2 == 0)
+		}
+		reverse := c.Bool()
+		omit := map[int]bool{}
+		if pairs && c.Bool() {
+			cand := []int{0, 1, 2, cs.n/2 - 1, cs.n / 2, cs.n/2 + 1, cs.n - 3, cs.n - 2, cs.n - 1}
+			a := c.Choose(len(cand))
+			b := c.Choose(len(cand))
+			if cand[a] >= cand[b] {
+				c.Skip("unordered pair")
+			}
+			omit[cand[a]], omit[cand[b]] = true, true
+		} else if o := c.Choose(cs.n + 1); o > 0 {
+			omit[o-1] = true
+		}
+		for i := 0; i < cs.n; i++ {
+			k := i
+			if reverse {
+				k = cs.n - 1 - i
+			}
+			if !omit[k] {
+				cs.arms = append(cs.arms, k)
+				f := 0
+				if cs.payload[k] {
+					f = k % 3
+				}
+				cs.forms = append(cs.forms, f)
+			}
+		}
+		cs.deflt = c.Bool()
+		for i := 0; i < cs.n; i++ {
+			if omit[i] {
+				cs.uncovered = append(cs.uncovered, c09Name(i))
+			}
+		}
+		cs.accept = cs.deflt || len(cs.uncovered) == 0
+		cs.src = c09Render(cs, "")
+		return cs
+	}
 }
 
 // c09PairDriver: two matches on the SAME union in one fc invocation - in two functions of one file,
@@ -330,6 +388,24 @@ func checkC09(c *core.Ctx) {
 		c.Count(0, st2.States, st2.Transitions, 0)
 		c.Set("two_match_histories", st2.Executions)
 	}
+	{
+		sizes := []int{7, 8, 9, 13, 16, 17, 33}
+		if c.Thorough() {
+			sizes = []int{6, 7, 8, 9, 13, 15, 16, 17, 26, 27, 31, 32, 33, 63, 64, 65, 130}
+		}
+		ld := c09LargeDriver(sizes, c.Thorough())
+		var cur3 *c09Case
+		st3 := explore.Explore(-1, func(ch *explore.Chooser) { cur3 = ld(ch) }, func(ch *explore.Chooser) bool {
+			cur3.choices = append([]int{}, ch.Choices...)
+			if c.Expired() {
+				return false
+			}
+			jobs <- cur3
+			return true
+		})
+		c.Count(0, st3.States, st3.Transitions, 0)
+		c.Set("large_unions", map[string]any{"sizes": sizes, "programs": st3.Executions - st3.Skipped})
+	}
 	close(jobs)
 	wg.Wait()
 	c.Count(0, st.States, st.Transitions, 0)
@@ -341,7 +417,7 @@ func checkC09(c *core.Ctx) {
 	}
 }
 
-var c09Word = regexp.MustCompile(`Zq[a-z]`)
+var c09Word = regexp.MustCompile(`Zq[a-z]+`)
 
 // returns true if the program was accepted as expected
 func c09RunOne(c *core.Ctx, fc, foi, dir string, cs *c09Case) bool {
